@@ -967,12 +967,105 @@ func cloneUC(uc types.UnlockConditions) types.UnlockConditions {
 // an output of 2^127 each), honestly re-signed and re-sealed. Their sums equal the honest sums modulo the word size,
 // so only the overflow guards of validation stand between such a block and the creation of value. They are judged by
 // the accepted => sound oracle (conservation, siafund count), not by a presumed rejection.
-func (a *Adv) InflationProbes() int {
+func (a *Adv) InflationProbes() int { return a.inflationProbes("sound") }
+
+// WrapProbes offers the same siblings with the expectation `want` of the caller's probe hook (C10: "total" - no entry
+// point may panic on them, and what is accepted must be sound).
+func (a *Adv) WrapProbes(want string) int { return a.inflationProbes(want) }
+
+func (a *Adv) inflationProbes(want string) int {
 	n := 0
 	half128 := types.Currency{Hi: 1 << 63}
 	emit := func(blk types.Block, label string) {
-		if a.emit(blk, label, "sound", nil, nil) {
+		if a.emit(blk, label, want, nil, nil) {
 			n++
+		}
+	}
+	// two siafund outputs created by an honest v2 transaction of this block, spent together by an appended transaction as
+	// ephemeral parents whose claimed values are huge and wrap, in 64-bit arithmetic, onto the genuine total (2^63 and
+	// 2^63 + total): the in/out balance looks right to wrapping arithmetic, the claim computation overflows
+	if a.v2Allowed() {
+		median := MedianTimestamp(a.CS)
+	wrapSF:
+		for ti := range a.Honest.V2Transactions() {
+			orig := a.Honest.V2.Transactions[ti]
+			if len(orig.SiafundOutputs) < 2 {
+				continue
+			}
+			txid := orig.ID()
+			var ins []types.V2SiafundInput
+			total := uint64(0)
+			for oi := 0; oi < 2; oi++ {
+				o := orig.SiafundOutputs[oi]
+				lock, known := a.G.W.Locks[o.Address]
+				if !known || o.Value == 0 || !lock.Spendable(true, a.Child, median) {
+					continue wrapSF
+				}
+				sp, ok := Satisfy(lock.Policy, types.Hash256{}, a.CS.Index.Height, median)
+				if !ok {
+					continue wrapSF
+				}
+				parent := orig.EphemeralSiafundOutput(oi)
+				parent.ID = orig.SiafundOutputID(txid, oi)
+				total += o.Value
+				ins = append(ins, types.V2SiafundInput{Parent: parent, ClaimAddress: types.Address{0xD5}, SatisfiedPolicy: sp})
+			}
+			ins[0].Parent.SiafundOutput.Value = 1 << 63
+			ins[1].Parent.SiafundOutput.Value = 1<<63 + total
+			txn := types.V2Transaction{SiafundInputs: ins, SiafundOutputs: []types.SiafundOutput{{Value: total, Address: types.Address{0xD6}}}}
+			SignV2(a.CS, &txn, SignOpts{})
+			blk := CloneBlock(a.Honest)
+			blk.V2.Transactions = append(blk.V2.Transactions, txn)
+			emit(blk, "wrap/v2-ephemeral-siafund-parents-2^63+2^63")
+			break
+		}
+		// the same behind a splitting transaction of the probe's own making, when the store holds a spendable siafund
+		// element the honest block leaves alone
+		spentHere := map[types.SiafundOutputID]bool{}
+		for _, t := range a.Honest.Transactions {
+			for _, in := range t.SiafundInputs {
+				spentHere[in.ParentID] = true
+			}
+		}
+		for _, t := range a.Honest.V2Transactions() {
+			for _, in := range t.SiafundInputs {
+				spentHere[in.Parent.ID] = true
+			}
+		}
+		pk := MakeLock(LockSpec{Kind: NumV1Kinds, K1: 1})
+		psp, okp := Satisfy(pk.Policy, types.Hash256{}, a.CS.Index.Height, median)
+		for _, e := range a.G.C.Store.SortedSF() {
+			lock, known := a.G.W.Locks[e.SiafundOutput.Address]
+			if spentHere[e.ID] || !known || !okp || e.SiafundOutput.Value < 2 || !lock.Spendable(true, a.Child, median) {
+				continue
+			}
+			sp, ok := Satisfy(lock.Policy, types.Hash256{}, a.CS.Index.Height, median)
+			if !ok {
+				continue
+			}
+			v := e.SiafundOutput.Value
+			t1 := types.V2Transaction{
+				SiafundInputs:  []types.V2SiafundInput{{Parent: e.Copy(), ClaimAddress: types.Address{0xD7}, SatisfiedPolicy: sp}},
+				SiafundOutputs: []types.SiafundOutput{{Value: v / 2, Address: pk.Address()}, {Value: v - v/2, Address: pk.Address()}},
+			}
+			SignV2(a.CS, &t1, SignOpts{})
+			id1 := t1.ID()
+			p0, p1 := t1.EphemeralSiafundOutput(0), t1.EphemeralSiafundOutput(1)
+			p0.ID, p1.ID = t1.SiafundOutputID(id1, 0), t1.SiafundOutputID(id1, 1)
+			p0.SiafundOutput.Value, p1.SiafundOutput.Value = 1<<63, 1<<63+v
+			t2 := types.V2Transaction{
+				SiafundInputs: []types.V2SiafundInput{{Parent: p0, ClaimAddress: types.Address{0xD8}, SatisfiedPolicy: psp},
+					{Parent: p1, ClaimAddress: types.Address{0xD8}, SatisfiedPolicy: psp}},
+				SiafundOutputs: []types.SiafundOutput{{Value: v, Address: types.Address{0xD9}}},
+			}
+			SignV2(a.CS, &t2, SignOpts{})
+			blk := CloneBlock(a.Honest)
+			if blk.V2 == nil {
+				blk.V2 = &types.V2BlockData{}
+			}
+			blk.V2.Transactions = append(blk.V2.Transactions, t1, t2)
+			emit(blk, "wrap/v2-ephemeral-siafund-parents-2^63+2^63-after-own-split")
+			break
 		}
 	}
 	for ti := range a.Honest.Transactions {
